@@ -124,14 +124,17 @@ theorem C17_missing_pool_fails_fast (c : Ctx) (s : St) (obs : List Obs) (h : c.P
 theorem C17_fail_fast_spawns_nothing (c : Ctx) (s : St) (obs : List Obs) (o : Outcome) :
     (mgrComplete c s obs o).1.tasks.length = s.tasks.length := by
   unfold mgrComplete
-  have hr : ∀ s' obs', (mgrReturn c s' obs' o).1.tasks.length = s'.tasks.length := by
-    intro s' obs'; simp only [mgrReturn, St.setOutcome, endTask]; split <;> simp
+  have hr : ∀ s' obs' o', (mgrReturn c s' obs' o').1.tasks.length = s'.tasks.length := by
+    intro s' obs' o'; simp only [mgrReturn, St.setOutcome, endTask]; split <;> simp
   split
-  · exact hr _ _
-  · unfold cbThen
+  · exact hr _ _ _
+  · unfold cbCall
     split
-    · exact hr _ _
-    · simp only [yieldNow]; split <;> simp
+    · exact hr _ _ _
+    · unfold cbThen
+      split
+      · exact hr _ _ _
+      · simp only [yieldNow]; split <;> simp
 
 end Eng
 end MLPE
